@@ -130,5 +130,36 @@ PROPS["C07"] = {
     ],
 }
 
+PROPS["C09"] = {
+    "quick_secs": 12,
+    "thorough_secs": 180,
+    "min_evaluations": 20000,
+    "technique": "differential monitor: falcon fixed-point solvers vs independent Kleene iteration on an independent location graph, with harness-defined monotone-by-construction analyses over finite lattices",
+    "rule": "random CFGs (<=7 blocks: loops, self-loops, empty blocks, multiple exits, entry inside a loop, unreachable parts) x random analyses over "
+            "powerset(3..5), products of chains and flat lattices whose per-location transfer functions are joins of step functions (monotone by "
+            "construction, additionally verified by brute force, None = bottom), forward and backward: the returned map must equal the independent "
+            "least solution (same key set = locations reachable from entry/exit, same state everywhere). Random table transfer functions (usually "
+            "non-monotone) must give FixedPointOrdering/FixedPointMaxSteps or a map satisfying the equations; an unbounded counter with a small "
+            "budget must give FixedPointMaxSteps iff a cycle is reachable. Distinct = (direction, monotone?, lattice, cyclic, entry-in-loop, empty blocks).",
+    "level_text": "Sampled (function, analysis) pairs; each is decided exactly by comparison with an independently computed least fixed point.",
+    "level_note": "trusts the Kleene iteration and lattice tables in harness/src/c09.rs and harness/src/locgraph.rs; the backward solver has no step budget, so unbounded-height analyses are only fed to the forward solver",
+    "assumptions": ["least solution is computed with 'no state' (None) as bottom, as the solver's interface defines it"],
+}
+
+PROPS["C15"] = {
+    "quick_secs": 12,
+    "thorough_secs": 150,
+    "min_evaluations": 50000,
+    "technique": "invariant monitor after every CFG editing operation + differential execution (reference interpreter) across merge() and append()",
+    "rule": "random histories of 10-60 operations (new_block, block operations, remove_instruction, conditional/unconditional edges incl. invalid "
+            "ones, set_entry/set_exit incl. invalid, append, insert, merge) on two live graphs with all structural invariants re-checked after every "
+            "step (success or failure); merge() on random functions (<=8 blocks, loops, self-loops, empty blocks, unreachable blocks) with executed-"
+            "operation traces and final states compared before/after from 4 states; a.append(b) compared with running a then b; "
+            "BlockTranslationResult::blockify on lifted amd64 blocks. Distinct = (scenario, size buckets, number of blocks merged).",
+    "level_text": "Sampled operation histories with a complete invariant check after each step, and sampled functions/states for the meaning-preservation half.",
+    "level_note": "trusts harness/src/refinterp.rs for the execution comparison; append is judged only when both exits have no outgoing edges (as lifters produce)",
+    "assumptions": ["a.append(b) is compared with 'run a then b' only when a's run ends at a's exit block and both exits have no successors"],
+}
+
 # properties not claimed, with the reason (everything else not in PROPS is 'not built yet')
 NOT_CLAIMED = {}
